@@ -89,6 +89,9 @@ func (server *SugarDB) Flush(database int) {
 	if database == -1 {
 		for db, _ := range server.store {
 			// Clear db store.
+			for _, data := range server.store[db] {
+				server.memUsed -= data.Mem
+			}
 			clear(server.store[db])
 			// Clear db volatile key tracker.
 			server.keysWithExpiry.keys[db] = make([]string, 0)
@@ -110,6 +113,9 @@ func (server *SugarDB) Flush(database int) {
 	}
 
 	// Clear db store.
+	for _, data := range server.store[database] {
+		server.memUsed -= data.Mem
+	}
 	clear(server.store[database])
 	// Clear db volatile key tracker.
 	server.keysWithExpiry.keys[database] = make([]string, 0)
@@ -236,18 +242,18 @@ func (server *SugarDB) setValues(ctx context.Context, entries map[string]interfa
 			// Only a live entry passes its deadline on; a new value written over an expired key starts without one.
 			expireAt = entry.ExpireAt
 		}
-		server.store[database][key] = internal.KeyData{
+		data := internal.KeyData{
 			Value:    value,
 			ExpireAt: expireAt,
 		}
-		data := server.store[database][key]
 		mem, err := data.GetMem()
 		if err != nil {
 			return err
 		}
-		server.memUsed += mem
-		server.memUsed += int64(unsafe.Sizeof(key))
-		server.memUsed += int64(len(key))
+		// The entry replaces whatever was stored under the key: account for the difference only.
+		data.Mem = mem + int64(unsafe.Sizeof(key)) + int64(len(key))
+		server.memUsed += data.Mem - server.store[database][key].Mem
+		server.store[database][key] = data
 
 		if !server.isInCluster() {
 			server.snapshotEngine.IncrementChangeCount()
@@ -282,6 +288,7 @@ func (server *SugarDB) setExpiry(ctx context.Context, key string, expireAt time.
 	server.store[database][key] = internal.KeyData{
 		Value:    server.store[database][key].Value,
 		ExpireAt: expireAt,
+		Mem:      server.store[database][key].Mem,
 	}
 
 	// Keep the index of volatile keys in step: a key with a deadline is listed, a key whose deadline was removed is not.
@@ -325,18 +332,36 @@ func (server *SugarDB) setExpiry(ctx context.Context, key string, expireAt time.
 	}
 }
 
+// reconcileMemory brings the accounted size of the given keys up to date. Handlers modify
+// collections in place (SADD, ZADD, HDEL, LPOP, ...); after a write command the keys it wrote
+// are measured again so that the usage figure follows the dataset.
+func (server *SugarDB) reconcileMemory(ctx context.Context, keys []string) {
+	server.storeLock.Lock()
+	defer server.storeLock.Unlock()
+
+	database := ctx.Value("Database").(int)
+
+	for _, key := range keys {
+		data, ok := server.store[database][key]
+		if !ok {
+			continue
+		}
+		mem, err := data.GetMem()
+		if err != nil {
+			continue
+		}
+		mem += int64(unsafe.Sizeof(key)) + int64(len(key))
+		server.memUsed += mem - data.Mem
+		data.Mem = mem
+		server.store[database][key] = data
+	}
+}
+
 func (server *SugarDB) deleteKey(ctx context.Context, key string) error {
 	database := ctx.Value("Database").(int)
 
-	// Deduct memory usage in tracker.
-	data := server.store[database][key]
-	mem, err := data.GetMem()
-	if err != nil {
-		return err
-	}
-	server.memUsed -= mem
-	server.memUsed -= int64(unsafe.Sizeof(key))
-	server.memUsed -= int64(len(key))
+	// Deduct exactly what the entry was accounted for.
+	server.memUsed -= server.store[database][key].Mem
 
 	// Delete the key from keyLocks and store.
 	delete(server.store[database], key)
